@@ -17,7 +17,12 @@ type luaErr struct {
 	handled bool // already passed through an xpcall message handler
 }
 
-type coCloseSig struct{}
+// coCloseSig unwinds a coroutine that is being closed (coroutine.close while it is suspended).  The
+// lexical blocks it passes through do not run their handlers: every value still pending in the
+// coroutine is closed, in reverse order, when the signal reaches the top of the coroutine (closeAll).
+// err is the error in flight when the coroutine was already dying of an uncaught error and was closed
+// while suspended inside one of the handlers run for that.
+type coCloseSig struct{ err *luaErr }
 type modelAbort struct{}
 
 type ctlKind byte
@@ -49,6 +54,7 @@ type mco struct {
 	start  bool
 	prot   []*protFrame // protected-call boundaries inside this coroutine
 	cerr   *mval        // error the coroutine died with
+	cstack []mval       // every pending to-be-closed value of the coroutine, innermost last
 }
 
 type protFrame struct {
@@ -181,31 +187,41 @@ func (m *interp) abortAll() {
 func (m *interp) execBlock(b []*stmt, env *menv) (c ctl) {
 	scope := &menv{locals: map[string]*mval{}, parent: env, vararg: nil}
 	var pending []mval
+	co := m.cur
 	defer func() {
 		r := recover()
 		var inflight *luaErr
-		closing := false
 		if r != nil {
 			switch x := r.(type) {
 			case *luaErr:
 				inflight = x
 			case coCloseSig:
-				closing = true
+				// the values of this block stay on the coroutine's stack: closeAll deals with them
+				panic(r)
 			default:
 				panic(r)
 			}
 		}
 		for i := len(pending) - 1; i >= 0; i-- {
 			v := pending[i]
+			co.cstack = co.cstack[:len(co.cstack)-1]
 			if !v.truthy() {
 				continue
 			}
 			func() {
 				defer func() {
 					if r2 := recover(); r2 != nil {
-						if le, ok := r2.(*luaErr); ok {
-							inflight = le
-						} else {
+						switch x := r2.(type) {
+						case *luaErr:
+							inflight = x
+						case coCloseSig:
+							// closed while suspended inside this handler: the error in flight stays in flight
+							// for the handlers still to run
+							if x.err == nil && inflight != nil {
+								x.err = inflight
+							}
+							panic(x)
+						default:
 							panic(r2)
 						}
 					}
@@ -219,9 +235,6 @@ func (m *interp) execBlock(b []*stmt, env *menv) (c ctl) {
 		}
 		if inflight != nil {
 			panic(inflight)
-		}
-		if closing {
-			panic(coCloseSig{})
 		}
 	}()
 	for i := 0; i < len(b); i++ {
@@ -299,6 +312,7 @@ func (m *interp) exec(s *stmt, env *menv, pending *[]mval) ctl {
 		}
 		env.locals[s.name] = &v
 		*pending = append(*pending, v)
+		m.cur.cstack = append(m.cur.cstack, v)
 		m.feat["tbc"] = true
 	case sDo:
 		return m.execBlock(s.body, env)
@@ -608,6 +622,13 @@ func (m *interp) builtin(name string, args []mval, line int) []mval {
 		x := <-co.out
 		m.cur = prev
 		prev.status = "running"
+		if x.kind == "yield" {
+			// a handler yielded while the coroutine was being closed: golua hands control back to the
+			// closer, which sees a successful close of a coroutine that is in fact suspended again
+			m.feat["yield-while-closing"] = true
+			co.status = "suspended"
+			return []mval{boolv(true)}
+		}
 		co.status = "dead"
 		if x.kind == "error" {
 			e := x.err
@@ -664,7 +685,7 @@ func (m *interp) coMain(co *mco) {
 				case *luaErr:
 					out = xfer{kind: "error", err: x.v}
 				case coCloseSig:
-					out = xfer{kind: "return"}
+					out = m.closeAll(co, x.err)
 				case modelAbort:
 					out = xfer{kind: "return"}
 				default:
@@ -680,6 +701,55 @@ func (m *interp) coMain(co *mco) {
 		out = xfer{kind: "return", vals: vals}
 	}()
 	co.out <- out
+}
+
+// closeAll closes every value still pending in a coroutine that is being closed, innermost first.
+// An error raised by a handler replaces the one in flight; being closed again while suspended inside
+// one of these handlers carries on with the rest.
+func (m *interp) closeAll(co *mco, inflight *luaErr) (out xfer) {
+	defer func() {
+		if r := recover(); r != nil {
+			if _, ok := r.(modelAbort); ok {
+				out = xfer{kind: "return"}
+				return
+			}
+			panic(r)
+		}
+	}()
+	m.feat["co-close-pending"] = true
+	for len(co.cstack) > 0 {
+		v := co.cstack[len(co.cstack)-1]
+		co.cstack = co.cstack[:len(co.cstack)-1]
+		if !v.truthy() {
+			continue
+		}
+		func() {
+			defer func() {
+				if r := recover(); r != nil {
+					switch x := r.(type) {
+					case *luaErr:
+						inflight = x
+					case coCloseSig:
+						m.feat["co-close-inside-handler"] = true
+						if x.err != nil {
+							inflight = x.err
+						}
+					default:
+						panic(r)
+					}
+				}
+			}()
+			ev := mval{}
+			if inflight != nil {
+				ev = inflight.v
+			}
+			m.callClose(v, ev)
+		}()
+	}
+	if inflight != nil {
+		return xfer{kind: "error", err: inflight.v}
+	}
+	return xfer{kind: "return"}
 }
 
 func (m *interp) yield(vals []mval) []mval {
